@@ -424,7 +424,6 @@ func newCase(kind string) *cliCase {
 		wrapOK: true, dec: "r", failAt: -1, sumMode: "hash", expect: "any"}
 }
 
-func hx(s string) string { return h.Hex([]byte(s)) }
 
 func listOf(xs []string) string {
 	if len(xs) == 0 {
